@@ -176,7 +176,7 @@ def rfc_parse(data):
 
 def ext_max_in_datagram(data):
     """lenient walk over the options of a datagram: does some option delta equal 65804, or would some option value,
-    re-encoded canonically, be 65804 bytes long?  (classifies the known off-by-one finding; never used to accept anything)"""
+    re-encoded canonically, be 65804 bytes long?  (classifies a regression of the off-by-one fixed in 96b3185; never used to accept anything)"""
     if len(data) < 4: return False
     i = 4 + data[0] % 16; number = 0
     while i < len(data):
@@ -266,7 +266,7 @@ def build_message(m):
 
 # ============================================================================ generators
 LEN_BOUNDARY = [0, 1, 2, 7, 8, 11, 12, 13, 14, 15, 16, 255, 256, 267, 268, 269, 270, 300]
-DELTA_BOUNDARY = [0, 1, 11, 12, 13, 14, 15, 267, 268, 269, 270, 65802, 65803, 65535, 65536]
+DELTA_BOUNDARY = [0, 1, 11, 12, 13, 14, 15, 267, 268, 269, 270, 65802, 65803, 65804, 65535, 65536]
 KNOWN_NUMBERS = sorted(RFC_FORMATS)
 CP_BOUNDARY = [0, 0x41, 0x7F, 0x80, 0xFF, 0x7FF, 0x800, 0xFFF, 0x1000, 0xD7FF, 0xE000, 0xFFFD, 0xFFFF, 0x10000, 0x3FFFF, 0x40000, 0xFFFFF, 0x100000, 0x10FFFF]
 UINT_BOUNDARY = [0, 1, 2, 127, 128, 255, 256, 257, 65535, 65536, 2 ** 24 - 1, 2 ** 24, 2 ** 32 - 1, 2 ** 32, 2 ** 64 - 1, 2 ** 64,
@@ -276,7 +276,7 @@ def g_len(rng, big_ok=False):
     r = rng.random()
     if r < 0.45: return rng.randint(0, 10)
     if r < 0.85: return rng.choice(LEN_BOUNDARY)
-    if big_ok and r < 0.87: return rng.choice([65802, 65803])
+    if big_ok and r < 0.87: return rng.choice([65803, 65804])
     return rng.randint(0, 40)
 def g_bytes(rng, n):
     if n > 600: return {"fill": [rng.randint(0, 255) for _ in range(rng.randint(1, 5))], "len": n}
@@ -326,7 +326,7 @@ def g_number(rng, prev):
     if r < 0.55: return prev                                   # repeated option
     if r < 0.8: return prev + rng.choice(DELTA_BOUNDARY)
     if r < 0.9: return prev + rng.randint(0, 30)
-    return prev + rng.randint(0, 70000) % 65804
+    return prev + rng.randint(0, 70000) % 65805
 def g_options(rng, big_ok=False):
     r = rng.random()
     k = 0 if r < 0.08 else 1 if r < 0.25 else rng.randint(2, 5) if r < 0.8 else rng.randint(6, 16)
@@ -341,7 +341,7 @@ def g_options(rng, big_ok=False):
         cand = [o for o in opts if o[1] in "OS"]
         if not cand: opts.append([prev + rng.choice([0, 1, 13, 2000]), "O", []]); cand = [opts[-1]]
         o = rng.choice(cand)
-        o[2] = {"fill": [rng.randint(0x20, 0x7E) for _ in range(rng.randint(1, 4))], "len": rng.choice([65802, 65803, 65803])}
+        o[2] = {"fill": [rng.randint(0x20, 0x7E) for _ in range(rng.randint(1, 4))], "len": rng.choice([65802, 65803, 65804])}
     r = rng.random()
     if r < 0.25: rng.shuffle(opts)
     elif r < 0.35: opts.reverse()
@@ -472,8 +472,8 @@ class C01(fw.Property):
                  "kernels, _to_minimum_bytes and the option format table regenerated from source on every run; differential correspondence of the "
                  "hand-written model with the real aiocoap objects; oracle = independent RFC 7252 section 3 / RFC 3629 encoder and parser")
     rule = ("streams: encode = structured messages (types 0-3, codes 0..255, mids, tokens 0-8, 0-16 options in sorted/shuffled/reversed insertion order, "
-            "numbers from the registry, repeated, at delta boundaries 12/13/14/268/269/270/65803 and beyond 65535 by summed deltas, every value format with "
-            "lengths at 0/12/13/268/269/65803, payload 0/1/large/starting with 0xFF) + ~10% messages outside the domain (token > 8, code/mid out of range, negative uint, "
+            "numbers from the registry, repeated, at delta boundaries 12/13/14/268/269/270/65803/65804 and beyond 65535 by summed deltas, every value format with "
+            "lengths at 0/12/13/268/269/65803/65804, payload 0/1/large/starting with 0xFF) + ~10% messages outside the domain (token > 8, code/mid out of range, negative uint, "
             "szx > 7, surrogate, value class not matching the number, > 65804) through Message.encode/decode vs Model/C01; decode = oracle-encoded valid datagrams, "
             "randomly mutated ones, random bytes, hand-written boundary datagrams; decode_mut = every single-byte substitution (0x00/0xFF/+-1/bit flips; all 255 values "
             "in decode_oracle), truncation, one-byte insertion (13 values) and deletion of 9 seed datagrams (sampled through the model in quick, all of them in thorough); "
@@ -489,8 +489,8 @@ class C01(fw.Property):
     level_text = ("Theorems (closed under the global context) over a model of Message.encode/decode, Options.encode/decode and the option value codecs whose "
                   "extended-field kernels, _to_minimum_bytes and format table are regenerated from source on every run: encode = independent RFC 7252 section 3 encoder "
                   "on every well-formed message, decode(encode(m)) = m with options in option_list order, every RFC-well-formed datagram parses to the RFC's fields, "
-                  "and for every byte string the parser either raises UnparsableMessage or returns a message that re-encodes and re-parses to itself, "
-                  "except for the known off-by-one at option delta/length 65804, which is carried as an explicit case.")
+                  "and for every byte string the parser either raises UnparsableMessage or returns a message that re-encodes to the RFC format and re-parses to itself "
+                  "(option deltas / value lengths over the whole range 0..65804 that section 3.1 can express).")
     level_note = ("Trusted: Coq kernel + vm_compute; translator + prelude; the hand-written parts of Model/C01.v (tied by correspondence, sampled); CPython's UTF-8 codec "
                   "is represented by Model/C01Utf8.v (proved a bijection between scalar-value lists and well-formed byte sequences, compared with CPython by sampling); "
                   "the dict inside Options is represented by its insertion sequence; Type()/Code() constructors and the direction assertion are outside the model.")
